@@ -200,7 +200,7 @@ struct SmallAsk : bloc::Parser::StreamReader {
 struct C13 : Profile {
   const char* id() const override { return "C13"; }
   const char* level() const override { return "fault_enumeration"; }
-  long budget(const std::string& tier) const override { return tier == "thorough" ? 400000 : 12000; }
+  long budget(const std::string& tier) const override { return tier == "thorough" ? 400000 : 40000; }
   std::string rule() const override {
     return "texts = generated lexeme soups / valid programs / boundary-padded long lines, printed in several physical layouts of the same "
            "token sequence; each delivered under a plan-chosen read schedule (every single split position of a text is enumerated by consecutive "
